@@ -44,6 +44,20 @@ def potable_callable(defn):
     return Configuration().read(io.StringIO(cfg)).potentials[0].potentialFunction
 
 
+def potable_wrapped_callable(c):
+    """the same spline through potable with start and end potentials given as custom formulas that merely call the built-in forms
+    (`ws(r, p..) = as.NAME(r, p..)`): such potentials offer no analytic derivatives, so the joins are built from numerical ones"""
+    (sk, sp), (ek, ep) = c["start"], c["end"]
+    sargs = ["p%d" % i for i in range(len(sp))]
+    eargs = ["q%d" % i for i in range(len(ep))]
+    forms = "ws(%s) = as.%s(%s)\nwe(%s) = as.%s(%s)\n" % (", ".join(["r"] + sargs), sk, ", ".join(["r"] + sargs), ", ".join(["r"] + eargs), ek, ", ".join(["r"] + eargs))
+    mid = "exp_spline" if c["kind"] == "exp" else "buck4_spline %r" % c["rm"]
+    defn = "spline(ws %s >%r %s >=%r we %s)" % (" ".join(repr(float(x)) for x in sp), c["rd"], mid, c["ra"], " ".join(repr(float(x)) for x in ep))
+    cfg = "[Tabulation]\ntarget : LAMMPS\ncutoff : 10.0\nnr : 11\n[Potential-Form]\n%s[Pair]\nA-B : %s\n" % (forms, defn)
+    from atsim.potentials.config import Configuration
+    return Configuration().read(io.StringIO(cfg)).potentials[0].potentialFunction, cfg
+
+
 def rel(a, b, scale=0.0):
     return abs(a - b) <= 2e-6 * max(abs(a), abs(b), scale) + 1e-9
 
@@ -177,6 +191,20 @@ def check(run):
                         break
         except Exception as ex:
             problems.append("potable spline() route raised %s: %s" % (type(ex).__name__, str(ex)[:150]))
+        # (e) start / end potentials without analytic derivatives (custom formulas wrapping the same built-in forms): same function up to the error
+        #     of the numerical end-point derivatives (h = 1e-6 central differences: relative 1e-8..1e-6 on the coefficients)
+        if len(problems) == 0 and (run.evaluations % 3 == 0):
+            try:
+                gw, wcfg = potable_wrapped_callable(c)
+                scale = abs(dp.v) + abs(apt.v) + 1e-3
+                for t in range(41):
+                    r = 0.6 * c["rd"] + t * ((1.3 * c["ra"] - 0.6 * c["rd"]) / 40.0)
+                    a, bb = f(r), gw(r)
+                    if abs(a - bb) > 2e-4 * max(abs(a), scale):
+                        problems.append("spline() of custom-formula wrappers of the same forms gives %r at r=%r, the spline classes give %r (potable file: %r)" % (bb, r, a, wcfg))
+                        break
+            except Exception as ex:
+                problems.append("potable spline() of custom-formula wrappers raised %s: %s" % (type(ex).__name__, str(ex)[:150]))
         if problems:
             nbad += 1
             if nbad <= 3:
